@@ -24,7 +24,7 @@ RULE = (
     "dims in original order + group axis last; eager == chunked in shape and values (this also gives the stack law for "
     "batch dims). Non-trivial = a kept label dimension exists and some label is absent from some slice."
 )
-BUDGET = {"quick": 250, "thorough": 3000}
+BUDGET = {"quick": 500, "thorough": 3000}
 ASSUMPTIONS = [
     "arg-reductions only with a single reduced axis (position semantics for several axes is not stated) and integer fills",
     "all-NaN groups inside a slice are masked by flox by design when a fill is given: not asserted",
